@@ -48,7 +48,8 @@ KEYS = {   # must equal KeysQ / KeysX of spec/TcpAuthMC.tla (checked against the
 
 
 def exhaustive(ctx):
-    cfgs = [("MC_TcpAuth.cfg", "5 keys, 3 connections, 2 in flight")]
+    cfgs = [("MC_TcpAuth.cfg", "5 keys, 3 connections, 2 in flight"),
+            ("MC_TcpAuthFault.cfg", "entropy faults: 5 keys, 2 connections")]
     if not ctx.quick:
         cfgs += [("MC_TcpAuthX.cfg", "four classes under one secret"),
                  ("MC_TcpAuthThorough.cfg", "4 connections, 3 in flight")]
